@@ -33,9 +33,9 @@ def Skips (run : List Nat → List Nat → Res) (x : Nat) (p : List Nat) : Prop 
     (x ∉ a → x ∉ (run (p ++ tl) a).2.1)
 
 mutual
-theorem pathS : ∀ (s : CS) (u u' : List Nat) (x : Nat), retFreeS s = true → uaS s u = some u' → x ∈ u' →
+theorem pathS : ∀ (s : CS) (u u' : List Nat) (x : Nat), uaS s u = some u' → x ∈ u' →
     ∃ p, Skips (runS s) x p
-  | .assign f, u, u', x, _, h, hx => by
+  | .assign f, u, u', x, h, hx => by
     simp only [uaS, Option.some.injEq] at h; subst h
     have hne : x ≠ f := by
       have := (List.mem_filter.mp hx).2
@@ -46,12 +46,11 @@ theorem pathS : ∀ (s : CS) (u u' : List Nat) (x : Nat), retFreeS s = true → 
     rcases List.mem_cons.mp hmem with h1 | h1
     · exact hne h1
     · exact hxa h1
-  | .skip, u, u', x, _, _, _ => by
+  | .skip, u, u', x, _, _ => by
     refine ⟨[], fun tl a => ?_⟩
     simp only [List.nil_append, runS, true_and]
     exact fun h => h
-  | .ite t e, u, u', x, hrf, h, hx => by
-    simp only [retFreeS, Bool.and_eq_true] at hrf
+  | .ite t e, u, u', x, h, hx => by
     simp only [uaS] at h
     cases ht : uaB t u with
     | none => simp [ht] at h
@@ -61,48 +60,46 @@ theorem pathS : ∀ (s : CS) (u u' : List Nat) (x : Nat), retFreeS s = true → 
       | some b =>
         simp only [ht, he, Option.some.injEq] at h; subst h
         rcases List.mem_append.mp hx with hx | hx
-        · obtain ⟨p, hp⟩ := pathB t u a x hrf.1 ht hx
+        · obtain ⟨p, hp⟩ := pathB t u a x ht hx
           refine ⟨0 :: p, fun tl a' => ?_⟩
           simp only [List.cons_append, runS, if_true]
           exact hp tl a'
-        · obtain ⟨p, hp⟩ := pathB e u b x hrf.2 he hx
+        · obtain ⟨p, hp⟩ := pathB e u b x he hx
           refine ⟨1 :: p, fun tl a' => ?_⟩
           simp only [List.cons_append, runS]
           rw [if_neg (by decide)]
           exact hp tl a'
-  | .ifOnly t, u, u', x, _, _, _ => by
+  | .ifOnly t, u, u', x, _, _ => by
     refine ⟨[0], fun tl a => ?_⟩
     simp only [List.cons_append, List.nil_append, runS, if_true, true_and]
     exact fun h => h
-  | .loop b, u, u', x, _, _, _ => by
+  | .loop b, u, u', x, _, _ => by
     refine ⟨[0], fun tl a => ?_⟩
     simp only [List.cons_append, List.nil_append, runS, iter, true_and]
     exact fun h => h
-  | .matchS [] ca, u, u', x, _, _, _ => by
+  | .matchS [] ca, u, u', x, _, _ => by
     refine ⟨[0], fun tl a => ?_⟩
     cases ca <;> simp only [List.cons_append, List.nil_append, runS, runA, Option.getD_none, true_and] <;>
       exact fun h => h
-  | .matchS (y :: more) true, u, u', x, hrf, h, hx => by
-    simp only [retFreeS] at hrf
+  | .matchS (y :: more) true, u, u', x, h, hx => by
     simp only [uaS] at h
     cases ha : uaA (y :: more) u with
     | none => simp [ha] at h
     | some q =>
       simp only [ha, if_true, Option.some.injEq] at h; subst h
-      obtain ⟨i, p, hp⟩ := pathA (y :: more) u q x hrf ha hx
+      obtain ⟨i, p, hp⟩ := pathA (y :: more) u q x ha hx
       refine ⟨i :: p, fun tl a => ?_⟩
       obtain ⟨r, hr, h1, h2, h3⟩ := hp tl a
       simp only [List.cons_append, runS, hr, Option.getD_some]
       exact ⟨h1, h2, h3⟩
-  | .matchS (y :: more) false, u, u', x, hrf, h, hx => by
-    simp only [retFreeS] at hrf
+  | .matchS (y :: more) false, u, u', x, h, hx => by
     simp only [uaS] at h
     cases ha : uaA (y :: more) u with
     | none => simp [ha] at h
     | some q =>
       simp only [ha, Bool.false_eq_true, if_false, Option.some.injEq] at h; subst h
       rcases List.mem_append.mp hx with hx | _
-      · obtain ⟨i, p, hp⟩ := pathA (y :: more) u q x hrf ha hx
+      · obtain ⟨i, p, hp⟩ := pathA (y :: more) u q x ha hx
         refine ⟨(i + 1) :: p, fun tl a => ?_⟩
         obtain ⟨r, hr, h1, h2, h3⟩ := hp tl a
         simp only [List.cons_append, runS, hr, Option.getD_some]
@@ -110,27 +107,33 @@ theorem pathS : ∀ (s : CS) (u u' : List Nat) (x : Nat), retFreeS s = true → 
       · refine ⟨[0], fun tl a => ?_⟩
         simp only [List.cons_append, List.nil_append, runS, true_and]
         exact fun h => h
-  | .handle arms, u, u', x, _, _, _ => by
+  | .handle arms, u, u', x, _, _ => by
     refine ⟨[0], fun tl a => ?_⟩
     simp only [List.cons_append, List.nil_append, runS, true_and]
     exact fun h => h
-  | .ret, _, _, _, hrf, _, _ => by simp [retFreeS] at hrf
-theorem pathB : ∀ (b : List CS) (u u' : List Nat) (x : Nat), retFreeB b = true → uaB b u = some u' → x ∈ u' →
+  | .ret, u, u', x, h, hx => by
+    simp only [uaS] at h
+    split at h
+    · rename_i hemp
+      simp only [Option.some.injEq] at h; subst h
+      have : u = [] := by simpa using hemp
+      subst this; exact absurd hx (by simp)
+    · exact absurd h (by simp)
+theorem pathB : ∀ (b : List CS) (u u' : List Nat) (x : Nat), uaB b u = some u' → x ∈ u' →
     ∃ p, Skips (runB b) x p
-  | [], u, u', x, _, _, _ => by
+  | [], u, u', x, _, _ => by
     refine ⟨[], fun tl a => ?_⟩
     simp only [List.nil_append, runB, true_and]
     exact fun h => h
-  | s :: ss, u, u', x, hrf, h, hx => by
-    simp only [retFreeB, Bool.and_eq_true] at hrf
+  | s :: ss, u, u', x, h, hx => by
     simp only [uaB] at h
     cases hs : uaS s u with
     | none => simp [hs] at h
     | some u1 =>
       simp only [hs] at h
       have hx1 : x ∈ u1 := uaB_sub ss u1 u' h x hx
-      obtain ⟨p1, hp1⟩ := pathS s u u1 x hrf.1 hs hx1
-      obtain ⟨p2, hp2⟩ := pathB ss u1 u' x hrf.2 h hx
+      obtain ⟨p1, hp1⟩ := pathS s u u1 x hs hx1
+      obtain ⟨p2, hp2⟩ := pathB ss u1 u' x h hx
       refine ⟨p1 ++ p2, fun tl a => ?_⟩
       obtain ⟨h1, h2, h3⟩ := hp1 (p2 ++ tl) a
       simp only [List.append_assoc, runB]
@@ -144,22 +147,20 @@ theorem pathB : ∀ (b : List CS) (u u' : List Nat) (x : Nat), retFreeB b = true
           simp only
           obtain ⟨g1, g2, g3⟩ := hp2 tl a'
           exact ⟨g1, g2, fun hxa => g3 (h3 hxa)⟩
-theorem pathA : ∀ (arms : List (List CS)) (u q : List Nat) (x : Nat), retFreeA arms = true → uaA arms u = some q →
+theorem pathA : ∀ (arms : List (List CS)) (u q : List Nat) (x : Nat), uaA arms u = some q →
     x ∈ q → ∃ i p, ∀ (tl a : List Nat), ∃ r, runA arms i (p ++ tl) a = some r ∧ r.1 = false ∧ r.2.2 = tl ∧
       (x ∉ a → x ∉ r.2.1)
-  | [], u, q, x, _, h, hx => by
+  | [], u, q, x, h, hx => by
     simp only [uaA, Option.some.injEq] at h; subst h; exact absurd hx (by simp)
-  | [y], u, q, x, hrf, h, hx => by
-    simp only [retFreeA, Bool.and_true] at hrf
+  | [y], u, q, x, h, hx => by
     rw [uaA_cons] at h
     cases hy : uaB y u with
     | none => simp [hy] at h
     | some p0 =>
       simp only [hy, uaA, Option.some.injEq, List.append_nil] at h; subst h
-      obtain ⟨p, hp⟩ := pathB y u p0 x hrf hy hx
+      obtain ⟨p, hp⟩ := pathB y u p0 x hy hx
       refine ⟨0, p, fun tl a => ⟨runB y (p ++ tl) a, by simp [runA], hp tl a⟩⟩
-  | y :: z :: more, u, q, x, hrf, h, hx => by
-    simp only [retFreeA, Bool.and_eq_true] at hrf
+  | y :: z :: more, u, q, x, h, hx => by
     rw [uaA_cons] at h
     cases hy : uaB y u with
     | none => simp [hy] at h
@@ -169,13 +170,161 @@ theorem pathA : ∀ (arms : List (List CS)) (u q : List Nat) (x : Nat), retFreeA
       | some q1 =>
         simp only [hy, hm, Option.some.injEq] at h; subst h
         rcases List.mem_append.mp hx with hx | hx
-        · obtain ⟨p, hp⟩ := pathB y u p0 x hrf.1 hy hx
+        · obtain ⟨p, hp⟩ := pathB y u p0 x hy hx
           refine ⟨0, p, fun tl a => ⟨runB y (p ++ tl) a, by simp [runA], hp tl a⟩⟩
-        · have hrf' : retFreeA (z :: more) = true := by simp [retFreeA, hrf.2]
-          obtain ⟨i, p, hp⟩ := pathA (z :: more) u q1 x hrf' hm hx
+        · obtain ⟨i, p, hp⟩ := pathA (z :: more) u q1 x hm hx
           refine ⟨i + 1, p, fun tl a => ?_⟩
           obtain ⟨r, hr, hrest⟩ := hp tl a
           exact ⟨r, by simp only [runA]; exact hr, hrest⟩
+end
+
+/-- a path on which the constructor RETURNS while `x` is unassigned -/
+def Returns (run : List Nat → List Nat → Res) (x : Nat) (p : List Nat) : Prop :=
+  ∀ (tl a : List Nat), x ∉ a → (run (p ++ tl) a).1 = true ∧ x ∉ (run (p ++ tl) a).2.1
+
+mutual
+/-- an error of the analysis ("not assigned to before return") is justified by a path that reaches a
+    `return` with an attribute unassigned -/
+theorem failS : ∀ (s : CS) (u : List Nat), uaS s u = none → ∃ x ∈ u, ∃ p, Returns (runS s) x p
+  | .assign f, u, h => by simp [uaS] at h
+  | .skip, u, h => by simp [uaS] at h
+  | .ite t e, u, h => by
+    cases ht : uaB t u with
+    | none =>
+      obtain ⟨x, hx, p, hp⟩ := failB t u ht
+      refine ⟨x, hx, 0 :: p, fun tl a hxa => ?_⟩
+      simp only [List.cons_append, runS, if_true]
+      exact hp tl a hxa
+    | some a0 =>
+      cases he : uaB e u with
+      | none =>
+        obtain ⟨x, hx, p, hp⟩ := failB e u he
+        refine ⟨x, hx, 1 :: p, fun tl a hxa => ?_⟩
+        simp only [List.cons_append, runS]
+        rw [if_neg (by decide)]
+        exact hp tl a hxa
+      | some b0 => simp [uaS, ht, he] at h
+  | .ifOnly t, u, h => by
+    cases ht : uaB t u with
+    | none =>
+      obtain ⟨x, hx, p, hp⟩ := failB t u ht
+      refine ⟨x, hx, 1 :: p, fun tl a hxa => ?_⟩
+      simp only [List.cons_append, runS]
+      rw [if_neg (by decide)]
+      exact hp tl a hxa
+    | some a0 => simp [uaS, ht] at h
+  | .loop b, u, h => by
+    cases ht : uaB b u with
+    | none =>
+      obtain ⟨x, hx, p, hp⟩ := failB b u ht
+      refine ⟨x, hx, 1 :: p, fun tl a hxa => ?_⟩
+      simp only [List.cons_append, runS, iter]
+      obtain ⟨h1, h2⟩ := hp tl a hxa
+      cases hr : runB b (p ++ tl) a with
+      | mk r rest =>
+        cases rest with
+        | mk a' cs' =>
+          rw [hr] at h1 h2
+          simp only at h1 h2
+          subst h1
+          exact ⟨rfl, h2⟩
+    | some a0 => simp [uaS, ht] at h
+  | .matchS [] ca, u, h => by simp [uaS] at h
+  | .matchS (y :: more) true, u, h => by
+    cases ha : uaA (y :: more) u with
+    | none =>
+      obtain ⟨x, hx, i, p, hp⟩ := failA (y :: more) u ha
+      refine ⟨x, hx, i :: p, fun tl a hxa => ?_⟩
+      obtain ⟨r, hr, h1, h2⟩ := hp tl a hxa
+      simp only [List.cons_append, runS, hr, Option.getD_some]
+      exact ⟨h1, h2⟩
+    | some q => simp [uaS, ha] at h
+  | .matchS (y :: more) false, u, h => by
+    cases ha : uaA (y :: more) u with
+    | none =>
+      obtain ⟨x, hx, i, p, hp⟩ := failA (y :: more) u ha
+      refine ⟨x, hx, (i + 1) :: p, fun tl a hxa => ?_⟩
+      obtain ⟨r, hr, h1, h2⟩ := hp tl a hxa
+      simp only [List.cons_append, runS, hr, Option.getD_some]
+      exact ⟨h1, h2⟩
+    | some q => simp [uaS, ha] at h
+  | .handle arms, u, h => by
+    cases ha : uaA arms u with
+    | none =>
+      obtain ⟨x, hx, i, p, hp⟩ := failA arms u ha
+      refine ⟨x, hx, (i + 1) :: p, fun tl a hxa => ?_⟩
+      obtain ⟨r, hr, h1, h2⟩ := hp tl a hxa
+      simp only [List.cons_append, runS, hr, Option.getD_some]
+      exact ⟨h1, h2⟩
+    | some q => simp [uaS, ha] at h
+  | .ret, u, h => by
+    simp only [uaS] at h
+    split at h
+    · exact absurd h (by simp)
+    · rename_i hne
+      cases u with
+      | nil => simp at hne
+      | cons x rest =>
+        refine ⟨x, by simp, [], fun tl a hxa => ?_⟩
+        simp only [List.nil_append, runS, true_and]
+        exact hxa
+theorem failB : ∀ (b : List CS) (u : List Nat), uaB b u = none → ∃ x ∈ u, ∃ p, Returns (runB b) x p
+  | [], u, h => by simp [uaB] at h
+  | s :: ss, u, h => by
+    cases hs : uaS s u with
+    | none =>
+      obtain ⟨x, hx, p, hp⟩ := failS s u hs
+      refine ⟨x, hx, p, fun tl a hxa => ?_⟩
+      obtain ⟨h1, h2⟩ := hp tl a hxa
+      simp only [runB]
+      cases hr : runS s (p ++ tl) a with
+      | mk r rest =>
+        cases rest with
+        | mk a' cs' =>
+          rw [hr] at h1 h2
+          simp only at h1 h2
+          subst h1
+          exact ⟨rfl, h2⟩
+    | some u1 =>
+      have h' : uaB ss u1 = none := by simpa [uaB, hs] using h
+      obtain ⟨x, hx1, p2, hp2⟩ := failB ss u1 h'
+      obtain ⟨p1, hp1⟩ := pathS s u u1 x hs hx1
+      refine ⟨x, uaS_sub s u u1 hs x hx1, p1 ++ p2, fun tl a hxa => ?_⟩
+      obtain ⟨g1, g2, g3⟩ := hp1 (p2 ++ tl) a
+      simp only [List.append_assoc, runB]
+      cases hr : runS s (p1 ++ (p2 ++ tl)) a with
+      | mk r rest =>
+        cases rest with
+        | mk a' cs' =>
+          rw [hr] at g1 g2 g3
+          simp only at g1 g2 g3
+          subst g1; subst g2
+          simp only
+          exact hp2 tl a' (g3 hxa)
+theorem failA : ∀ (arms : List (List CS)) (u : List Nat), uaA arms u = none →
+    ∃ x ∈ u, ∃ i p, ∀ (tl a : List Nat), x ∉ a → ∃ r, runA arms i (p ++ tl) a = some r ∧ r.1 = true ∧ x ∉ r.2.1
+  | [], u, h => by simp [uaA] at h
+  | [y], u, h => by
+    rw [uaA_cons] at h
+    cases hy : uaB y u with
+    | none =>
+      obtain ⟨x, hx, p, hp⟩ := failB y u hy
+      exact ⟨x, hx, 0, p, fun tl a hxa => ⟨runB y (p ++ tl) a, by simp [runA], hp tl a hxa⟩⟩
+    | some p0 => simp [hy, uaA] at h
+  | y :: z :: more, u, h => by
+    rw [uaA_cons] at h
+    cases hy : uaB y u with
+    | none =>
+      obtain ⟨x, hx, p, hp⟩ := failB y u hy
+      exact ⟨x, hx, 0, p, fun tl a hxa => ⟨runB y (p ++ tl) a, by simp [runA], hp tl a hxa⟩⟩
+    | some p0 =>
+      cases hm : uaA (z :: more) u with
+      | none =>
+        obtain ⟨x, hx, i, p, hp⟩ := failA (z :: more) u hm
+        refine ⟨x, hx, i + 1, p, fun tl a hxa => ?_⟩
+        obtain ⟨r, hr, hrest⟩ := hp tl a hxa
+        exact ⟨r, by simp only [runA]; exact hr, hrest⟩
+      | some q1 => simp [hy, hm] at h
 end
 
 mutual
